@@ -8,4 +8,5 @@ pub mod embed_common;
 pub mod embed_lex2;
 pub mod embed_lex3;
 pub mod embed_heif;
+pub mod embed_frag;
 pub mod embed_oracle;
